@@ -34,4 +34,16 @@ CHECKS.update({
             "text": "Every ICG_Gym method proved against its contract from an arbitrary state satisfying the environment invariant (all chosen sets at once), real callees inlined, n=3 (4 thorough); real gymnasium sequences bounded.",
             "note": _NOTE + "; gymnasium.Env stubbed in the deductive part"},
 })
+
+CHECKS.update({
+    "C15": {"level": "proof", "technique": _T + "; QF_NRA for the division by the symbolic surplus; precondition regions R1/R2",
+            "text": "For textbook-superadditive games (region R1) normalisation proved to map into [0,1] with singletons 0 and grand coalition 1, stay superadditive, agree between graph and table form, and round-trip exactly, for all real games per n=2..4 (5 thorough). Games accepted only through the library tolerance (R2) are the listed known finding C15-near-additive.",
+            "note": _NOTE + "; float residue cases decided only by bounded runs"},
+    "C17": {"level": "proof", "technique": _T + "; abstract view + representation invariant, one obligation set per public method from an arbitrary invariant state",
+            "text": "Every public method of IncompleteCooperativeGame proved against the view (known, lower, upper) with whole-view postconditions and frames, per n=1..4 (5 thorough); histories follow by induction; random histories bounded.",
+            "note": _NOTE + "; NaN modelled as a poison symbol; coalition lists with repeated ids only bounded"},
+    "C18": {"level": "proof", "technique": _T + "; z3 bit-vectors (16/24 bit) for scalar coalition operations, all pairs at once; exhaustive enumeration per n for list-valued functions",
+            "text": "Scalar coalition operations proved against elementwise set semantics for all pairs of 16-bit coalitions (every n<=16); enumerations exhaustive for n=1..10; predicates proved equivalent to their definitions on symbolic games n<=3 (4 thorough).",
+            "note": _NOTE + "; list-valued enumerations are exhaustive checks per n, not symbolic proofs"},
+})
 NOT_APPLICABLE = {}
